@@ -40,6 +40,11 @@ pub enum P {
     /// Core hosts only: a command task awaits req a, then calls a *legacy* capability, which spawns a
     /// capability task that notifies the shell (site n, arg = value)
     MixedNotify(S, S),
+    /// async: spawn(child: req a -> event); join!(jh, req b) -> event(b), mark m   (a join handle awaited
+    /// alongside another wake source)
+    JoinReq(S, S, S),
+    /// async: spawn(child: req a -> event); select(jh, req b): child first -> mark m, b first -> event(b)
+    SelectJoinReq(S, S, S),
     /// `request(a).map(f).then_send(got)`
     ReqMap(S),
     /// `stream(a).map(f).then_send(got)`
@@ -128,7 +133,7 @@ impl P {
             P::ReqReq(a, b) | P::ReqStream(a, b) | P::StreamReq(a, b) | P::StreamStream(a, b)
             | P::Join(a, b) | P::Select(a, b) | P::SpawnJoin(a, b) | P::SpawnAfter(a, b) | P::Burst(a, b) | P::Channel(a, b)
             | P::Unordered(a, b) | P::JoinTwice(a, b) | P::MixedNotify(a, b) => vec![a, b],
-            P::AbortChild(a, b, c) | P::IntoFuture(a, b, c) => vec![a, b, c],
+            P::AbortChild(a, b, c) | P::IntoFuture(a, b, c) | P::JoinReq(a, b, c) | P::SelectJoinReq(a, b, c) => vec![a, b, c],
             _ => vec![],
         }
     }
@@ -224,6 +229,8 @@ pub fn async_atoms() -> Vec<P> {
         P::AbortChild(s0(), s0(), s0()),
         P::JoinTwice(s0(), s0()),
         P::IntoFuture(s0(), s0(), s0()),
+        P::JoinReq(s0(), s0(), s0()),
+        P::SelectJoinReq(s0(), s0(), s0()),
     ]
 }
 
